@@ -96,6 +96,9 @@ class LoopMixin:
             if kind == "concrete":
                 return "concrete", list(enumerate(v))
             return "symbolic", Space(v.n, lambda k: (mk_int(k), v.elem(k)), v.sources)
+        from .values import AbsSeq
+        if isinstance(it, AbsSeq):
+            return "symbolic", Space(it.n, lambda k: OpaqueV("element"), [])
         if isinstance(it, (tuple, str, bytes, frozenset)):
             return "concrete", list(it)
         if isinstance(it, dict):
@@ -224,7 +227,14 @@ class LoopMixin:
                     else:
                         o.items, o.tag, o.t, o.origin = None, tag, t, None
                 continue
-            if isinstance(v, Ref) and isinstance(st.deref(v), DictV):
+            from .values import AbsV
+            if isinstance(v, Ref) and isinstance(st.deref(v), (DictV, AbsV)):
+                if getattr(self.contract, "abstract", False):
+                    if nm in names:
+                        st.env[nm] = st.alloc(AbsV(fresh(nm, T.I), kind="dict"))
+                    else:
+                        st.heap[v.oid] = AbsV(fresh(nm, T.I), kind="dict")
+                    continue
                 raise Unsupported(f"dict {nm} modified inside an invariant-cut loop")
             st.env[nm] = self.havoc_value(nm, v, st, hints)
         for obj, attr in sorted(fields):
@@ -449,6 +459,9 @@ class LoopMixin:
             if kind == "dict":
                 return st.alloc(DictV(keys))
             return st.alloc(ListV(items=out))
+        if kind == "dict" and getattr(self.contract, "abstract", False):
+            from .values import AbsV
+            return st.alloc(AbsV(fresh("absdict", T.I), kind="dict"))
         gv = GenV(sp, n, dict(st.env), kind)
         if kind == "list":
             return self.materialize(gv, st)
